@@ -95,15 +95,21 @@ instance (a b : Array Char) (pos len : Nat) : Decidable (AgreeOn a b pos len) :=
 /-- a whitespace set is *case-neutral*: none of its characters has a case variant -/
 def WsSafe (lower : Char → Char) (ws : List Char) : Prop := ∀ c, c ∈ ws → ∀ d, lower d = lower c → d = c
 
-/-- decidable sufficient test used by the driver: no character of the alphabet `cs` (the characters of
-both texts) is a proper case variant of a whitespace character -/
-def wsSafeOn (lower : Char → Char) (cs ws : List Char) : Bool :=
-  ws.all fun c => cs.all fun d => lower d != lower c || d == c
+/-- `str.lower` as a finite table (cased character ↦ lower-case character), identity elsewhere -/
+def lowerTab (tab : List (Char × Char)) (c : Char) : Char := (tab.lookup c).getD c
+
+/-- decidable criterion for `WsSafe (lowerTab tab)`: no whitespace character occurs in the case table -/
+def wsSafeTab (tab : List (Char × Char)) (ws : List Char) : Bool :=
+  ws.all fun c => tab.all fun kv => kv.1 != c && kv.2 != c
+
+/-- the ASCII part of the table -/
+def asciiTab : List (Char × Char) :=
+  [('A', 'a'), ('B', 'b'), ('C', 'c'), ('D', 'd'), ('E', 'e'), ('F', 'f'), ('G', 'g'), ('H', 'h'), ('I', 'i'), ('J', 'j'), ('K', 'k'), ('L', 'l'), ('M', 'm'), ('N', 'n'), ('O', 'o'), ('P', 'p'), ('Q', 'q'), ('R', 'r'), ('S', 's'), ('T', 't'), ('U', 'u'), ('V', 'v'), ('W', 'w'), ('X', 'x'), ('Y', 'y'), ('Z', 'z')]
 
 /-- every string literal is matched case-insensitively -/
 def AllIc (toks : Array Tok) : Prop := ∀ (i : Nat) lit ic, toks[i]? = some (Tok.str lit ic) → ic = true
 
-def allIc (toks : Array Tok) : Bool := toks.all fun t => match t with | .str _ ic => ic | _ => true
+def allIc (toks : Array Tok) : Bool := toks.toList.all fun t => match t with | .str _ ic => ic | _ => true
 
 /-- **Assumption on `re.IGNORECASE`** (and on base-type regexes whose language is closed under case
 change): regex token `i` matches the same lengths on case-folded-equal inputs. -/
@@ -119,6 +125,13 @@ structure NoCaseSensitiveTerminal (lower : Char → Char) (rx : Rx) (L : Lang) :
 structure WsNeutral (lower : Char → Char) (L : Lang) : Prop where
   top : WsSafe lower L.ws
   node : ∀ (id : Nat) (nd : Node), L.nodes[id]? = some nd → ∀ w, nd.ws = some w → WsSafe lower w
+
+/-- decidable criterion for `WsNeutral (lowerTab tab) L` -/
+def wsNeutralB (tab : List (Char × Char)) (L : Lang) : Bool :=
+  wsSafeTab tab L.ws && L.nodes.toList.all fun nd =>
+    match nd.ws with
+    | none => true
+    | some w => wsSafeTab tab w
 
 /-! ## terminal values -/
 
@@ -140,7 +153,7 @@ def leavesList : List Val → List (Nat × Nat × Nat)
   | v :: vs => leaves v ++ leavesList vs
 end
 
-def Outcome.leaves : Outcome → Option (List (Nat × Nat × Nat))
+def _root_.Peg.Outcome.leaves : Outcome → Option (List (Nat × Nat × Nat))
   | .tree v => some (Peg.Case.leaves v)
   | _ => none
 
